@@ -2,3 +2,4 @@
 import Thanos.Driver.Frontend
 import Thanos.Props.C41
 import Thanos.Props.C43
+import Thanos.Props.C42
